@@ -29,6 +29,13 @@ def work(job):
             except Exception as e:
                 r = "raised %s" % type(e).__name__
             want = datetime.datetime(2015, mi, 17, 7 if "%H" in fmt else 0, 41 if "%H" in fmt else 0)
+            # the statement's own precedence rule: "if the raw string matches one of the given
+            # formats, that reading is returned" - a localized name that is also an English name of
+            # another month under this format (teo 'mar' = May) must give the raw reading
+            try:
+                want = datetime.datetime.strptime(s, fmt)
+            except ValueError:
+                pass
             if r != want:
                 bad.append((code, name, fmt, s, repr(r), repr(want)))
                 break
